@@ -38,6 +38,15 @@ def find_parse_args(ctx: Ctx) -> FuncInfo:
     return best
 
 
+def split_parsers(pms: dict):
+    """(main parser, sentinel parser | None): the main parser is the one declaring the positional inputs."""
+    mains = [pm for pm in pms.values() if any(a.positional for a in pm.args)]
+    if len(mains) != 1:
+        raise AnalysisError(f"cannot identify the main ArgumentParser ({len(mains)} parsers declare positional arguments)")
+    others = [pm for pm in pms.values() if pm is not mains[0]]
+    return mains[0], (others[0] if others else None)
+
+
 def options_class(ctx: Ctx) -> ClassInfo:
     return ctx.repo.cls("flowmark.cli:Options")
 
@@ -80,13 +89,7 @@ def check_parse_args(ctx: Ctx) -> None:
     node, call = opt_calls[0]
     ocls = options_class(ctx)
     fields = [st.target.id for st in ocls.node.body if isinstance(st, ast.AnnAssign) and isinstance(st.target, ast.Name)]
-    main_pm = None
-    for pm in pms.values():
-        dests = pm.by_dest()
-        if all(o in dests for o in ("width", "semantic", "inplace", "output")):
-            main_pm = pm
-    if main_pm is None:
-        raise AnalysisError("anchor vanished: main ArgumentParser with dests width/semantic/inplace/output not found")
+    main_pm, _sentinel = split_parsers(pms)
     dests = main_pm.by_dest()
     ctx.note("argparse_main_arguments", len(main_pm.args))
     binding = _bind_dataclass(fields, call)
